@@ -59,6 +59,8 @@ func main() {
 	switch os.Args[1] {
 	case "check":
 		os.Exit(cmdCheck(os.Args[2:]))
+	case "replay":
+		os.Exit(cmdReplay(os.Args[2:]))
 	default:
 		fmt.Fprintln(os.Stderr, "unknown command", os.Args[1])
 		os.Exit(2)
@@ -194,7 +196,7 @@ func cmdCheck(argv []string) int {
 		resetGlobals(cs.Funcs[k].Opts["strings"] == "seq")
 		e := newFnExec(P, fn, k, cs.Funcs[k])
 		e.run()
-		execs[k] = e
+		execs[e.key] = e
 		for _, er := range e.errs {
 			engineErrs = append(engineErrs, k+": "+er)
 		}
@@ -482,6 +484,7 @@ func writeReplay(P *Prog, o *Obligation, prop, path string, e *FnExec) bool {
 		src, out, ok := runReplay(P, o, e)
 		rep["replay_test_source"] = src
 		rep["replay_output"] = out
+		rep["package"] = e.fn.Pkg.Pkg.Path()
 		rep["confirmed"] = ok
 		confirmed = ok
 	}
